@@ -83,6 +83,7 @@ UNWRAP_OK = {
 UNWRAP_SOME = {"std::option::Option::unwrap", "std::option::Option::expect"}
 CLONE = {"std::clone::Clone::clone", "std::borrow::ToOwned::to_owned"}
 TAKE = {"std::option::Option::take", "std::mem::take"}
+LOCKS = {"std::sync::Mutex::lock", "std::sync::Mutex::try_lock", "std::sync::RwLock::read", "std::sync::RwLock::write", "std::sync::RwLock::try_read", "std::sync::RwLock::try_write"}
 MAPERR = {"std::result::Result::map_err"}
 RESOK = {"std::result::Result::ok"}
 UNWRAP_OR = {"std::result::Result::unwrap_or", "std::option::Option::unwrap_or"}
@@ -108,6 +109,10 @@ def mk_field(base, name):
 
 
 def mk_vfield(base, variant, name):
+    if base[0] == "lockres":
+        # Ok(guard) | Err(PoisonError(guard)): either way a guard of the same mutex; the guard
+        # dereferences to the mutex content
+        return ("wrap", "Guard", base[1])
     if base[0] == "maperr":
         if variant == "Ok":
             return mk_vfield(base[1], "Ok", name)
@@ -186,6 +191,8 @@ def term_str(t, depth=0):
         return "map_err(%s, %s)" % (term_str(t[1], d), term_str(t[2], d))
     if k == "resok":
         return "ok(%s)" % term_str(t[1], d)
+    if k == "lockres":
+        return "lock(%s)" % term_str(t[1], d)
     if k == "mapped":
         return "mapped(%s, %s)" % (term_str(t[1], d), term_str(t[2], d))
     if k == "over":
@@ -215,7 +222,7 @@ def subterms(t, seen=None):
     elif k in ("maperr", "mapped"):
         yield from subterms(t[1])
         yield from subterms(t[2])
-    elif k == "resok":
+    elif k in ("resok", "lockres"):
         yield from subterms(t[1])
     elif k == "over":
         yield from subterms(t[1])
@@ -531,6 +538,8 @@ class BodyProv:
         if fn is None:
             return ("call", (self.body.path, bb), "<indirect>")
         ck = ckey(fn)
+        if ck in LOCKS and term["args"]:
+            return ("lockres", self.operand_term(term["args"][0], bb, "term", stack))
         if ck in MAPERR and len(term["args"]) == 2:
             return ("maperr", self.operand_term(term["args"][0], bb, "term", stack), self.operand_term(term["args"][1], bb, "term", stack))
         if ck in RESOK and term["args"]:
